@@ -120,6 +120,15 @@ else:
             'J5': ('database/transaction/transaction.go, database/inmemory/inmemory.go, updates/mutate.go, updates/difference.go, updates/updates.go', 'equivalent restructuring: per-operation helpers, result bookkeeping helpers, helpers for the in-place set/map algorithms that keep the write-back, early returns, pre-sizing, clearer error details, comments, a defensive check that duplicates an existing one'),
             'J6': ('anywhere in the library (client, cache, server, database, updates, ovsdb, mapper, model)', 'small features a maintainer would merge: a new read-only accessor that returns copies and takes the lock, an extra metric or log line, a new client option that defaults to today\'s behaviour, a new server-side helper RPC that only reads, a new exported pure function with its documentation, context plumbing that keeps defaults'),
         }
+    if kind == 'evolve4':
+        groups = {
+            'K1': ('client/client.go: the update/update2/update3 handlers, setLastTransactionID/lastTransactionID/forgetLastTransactionID, monitor, applyDeferredUpdates, MonitorCancel, handleCacheErrors/handleClientErrors, handleDisconnectNotification, transact and the inactivity probe', 'equivalent restructuring and small robustness work: shared helpers for the three handlers, the per-monitor transaction ids behind a small type with its own lock, clearer logging, early returns, helper extraction in the disconnect/reconnect path with the same order of side effects, extra nil/presence checks that only reject what was already rejected'),
+            'K2': ('cache/cache.go: TableCache.Run, eventProcessor, Populate/Populate2/ApplyCacheUpdate, RowCache.Rows*/RowsByCondition/RowsByModels, index helpers in cache/uuidset.go', 'equivalent restructuring: running the processor(s) from a small supervisor helper that still waits for them, per-row helpers, read paths that copy under the lock through a helper, pre-sizing, clearer errors, new read-only accessors that take the lock and return copies'),
+            'K3': ('server/server.go and server/monitor.go: Transact/transact, processMonitors, the monitor handlers, filter/filter2/columnSet, Send*', 'equivalent restructuring: argument decoding helpers that keep every length check, handler bodies sharing helpers under the same locks, notification building split into per-table helpers, table-driven dispatch by monitor kind, logging, a new read-only RPC'),
+            'K4': ('ovsdb/*.go and mapper/*.go', 'equivalent restructuring of encoders/decoders and the mapper: helper extraction, type switches vs comma-ok chains, error wrapping with %w, pre-sizing, new pure exported helpers with documentation; byte-identical wire formats'),
+            'K5': ('database/transaction/*.go, database/inmemory/*.go, database/references.go, updates/*.go', 'equivalent restructuring: per-operation helpers, result/err bookkeeping helpers, reference tracker helpers, in-place set/map helpers that keep the write-back, early returns, pre-sizing, comments'),
+            'K6': ('modelgen/*.go, cmd/modelgen/main.go, model/*.go, client/api.go, client/condition.go', 'equivalent restructuring: generator helpers rendering byte-identical output, template blocks moved into named templates, CLI helpers, API helpers that keep cloning and locking, clearer errors'),
+        }
     for k, (focus, kinds) in groups.items():
         wd = base + '/' + k
         wt(wd)
